@@ -98,6 +98,10 @@ func buildC08(tier string, seed int64) *Family {
 			}
 		}
 	}
+	add(".5 + 9001")
+	add(".25 * 4")
+	add("9001 - .125")
+	add("5. div .5")
 	add("count(*[1]) + count(*[2]) + count(*)")
 	add("-count(*[1]) + count(*)")
 	add("string-length('#S1')")
